@@ -2341,8 +2341,11 @@ class DataWrapperDeduplicator(CopyMapper):
         try:
             return self.data_wrapper_cache[cache_key]
         except KeyError:
-            self.data_wrapper_cache[cache_key] = expr
-            return expr
+            # CopyMapper.map_data_wrapper also maps array-valued shape components
+            result = super().map_data_wrapper(expr)
+            assert isinstance(result, DataWrapper)
+            self.data_wrapper_cache[cache_key] = result
+            return result
 
     def clone_for_callee(self, function: FunctionDefinition) -> Self:
         return type(self)(
